@@ -38,13 +38,6 @@ def kept(segs: TList(RawSegment), n: INT, blocks_indent: BOOL) -> TList(RawSegme
              else kept(segs, n - 1, blocks_indent) + [segs[n - 1]]))
 
 
-@spec(recursive=True)
-def text_tokens(segs: TList(RawSegment), n: INT) -> TList(RawSegment):
-    """the non-meta tokens (the ones that carry text) among the first n, in order"""
-    return ([] if n <= 0 else
-            (text_tokens(segs, n - 1) if segs[n - 1].is_meta else text_tokens(segs, n - 1) + [segs[n - 1]]))
-
-
 @external("sqlfluff.core.parser.segments.base:BaseSegment.is_type", PROP)
 class is_type:
     types = {"self": RawSegment, "seg_type": Text}
@@ -81,14 +74,12 @@ class lex_templated_file_filter:
     ghost_out = {"new_segments": TList(RawSegment)}
 
     def ensures(segments, templating_blocks_indent, violations, result, new_segments):
-        # only switched-off template-indent meta tokens are dropped (so template placeholders stay) ...
-        return (new_segments == kept(segments, len(segments), templating_blocks_indent)
-                # ... hence every token that carries text survives, in order: "never dropped"
-                and text_tokens(new_segments, len(new_segments)) == text_tokens(segments, len(segments)))
+        # only switched-off template-indent META tokens are dropped: every token that carries text (and every template
+        # placeholder) survives, in order -- "never dropped"
+        return new_segments == kept(segments, len(segments), templating_blocks_indent)
 
     def inv_1(segments, templating_blocks_indent, new_segments, _i):
-        return (new_segments == kept(segments, _i, templating_blocks_indent)
-                and text_tokens(new_segments, len(new_segments)) == text_tokens(segments, _i))
+        return new_segments == kept(segments, _i, templating_blocks_indent)
 
 
 TRUSTED = ["SQLLexError(description, pos=marker) is modelled as the immutable pair of its constructor arguments (positions derived from `pos`: C23)",
@@ -98,6 +89,6 @@ MUTANTS = [
     ("lxr_only_first", "sqlfluff/core/parser/lexer.py", "                        pos=segment.pos_marker,\n                    )\n                )\n        return violations", "                        pos=segment.pos_marker,\n                    )\n                )\n                break\n        return violations"),
     ("lxr_wrong_position", "sqlfluff/core/parser/lexer.py", "                        pos=segment.pos_marker,\n                    )\n                )\n        return violations", "                        pos=segments[0].pos_marker,\n                    )\n                )\n        return violations"),
     ("lxr_for_every_token", "sqlfluff/core/parser/lexer.py", '            if segment.is_type("unlexable"):\n                violations.append(', '            if segment.raw:\n                violations.append('),
-    ("filter_drops_zero_width_tokens", "sqlfluff/core/linter/linter.py", "            if segment.is_meta:\n                meta_segment = cast(\"MetaSegment\", segment)", "            if segment.is_meta or not segment.raw.strip():\n                meta_segment = cast(\"MetaSegment\", segment)"),
+    ("filter_drops_all_zero_indent_meta", "sqlfluff/core/linter/linter.py", "                if meta_segment.indent_val != 0:\n                    # Don't allow it if we're not linting templating block indents.", "                if meta_segment.indent_val == 0:\n                    # Don't allow it if we're not linting templating block indents."),
     ("filter_drops_all_meta", "sqlfluff/core/linter/linter.py", "                if meta_segment.indent_val != 0:\n                    # Don't allow it if we're not linting templating block indents.\n                    if not templating_blocks_indent:\n                        continue  # pragma: no cover", "                if meta_segment.indent_val != 0 or not templating_blocks_indent:\n                    continue"),
 ]
